@@ -50,7 +50,7 @@ def corner_alphabet(dw):
     top = 1 << (dw - 1)
     full = (1 << dw) - 1
     asym = int(("1101" * dw)[:dw], 2)
-    return sorted({0, 1, top, full, asym, R.reflect(asym, dw) ^ 1})
+    return sorted({0, 1, top, full, asym, R.reflect(asym, dw) ^ 1} | ({0xa7} if dw > 8 else set()))
 
 
 def sequences(alpha, maxlen):
@@ -67,15 +67,52 @@ def sequences(alpha, maxlen):
 
 
 # ------------------------------------------------------------------------------------------- software: small parameters
-def sw_case(p, dw, seq):
+# compute() documents `data` as an "iterable of int" (docs example: a bytes object), so every container kind below
+# must give the same value; bytes / bytearray only exist for sequences whose words all fit in an octet
+CONTAINER_KINDS = ("tuple", "list", "bytes", "bytearray", "iter", "gen")
+
+
+def as_container(kind, seq):
+    seq = tuple(seq)
+    if kind == "tuple":
+        return seq
+    if kind == "list":
+        return list(seq)
+    if kind == "iter":
+        return iter(seq)
+    if kind == "gen":
+        return (x for x in seq)
+    if any(x > 255 for x in seq):
+        return None
+    return bytes(seq) if kind == "bytes" else bytearray(seq)
+
+
+def seq_containers(seq):
+    """reusable containers of one word sequence: [(kind, object)]; iter/gen are created per call (None here)"""
+    out = []
+    for kind in CONTAINER_KINDS:
+        if kind in ("iter", "gen"):
+            out.append((kind, None))
+        else:
+            obj = as_container(kind, seq)
+            if obj is not None:
+                out.append((kind, obj))
+    return out
+
+
+def _csig(kind, seq):
+    return f"compute{list(seq)}" if kind == "tuple" else f"compute({kind}){list(seq)}"
+
+
+def sw_case(p, dw, seq, container="list"):
     """one software evaluation; returns list of (kind, got, want)"""
     w, poly, init, refin, refout, xorout = p
     params = _algo(p)(dw)
     bad = []
     want = R.crc(w, poly, init, refin, refout, xorout, dw, seq)
-    got = _call(params.compute, list(seq))
+    got = _call(params.compute, as_container(container, seq))
     if got != want:
-        bad.append(("compute", got, want))
+        bad.append((f"compute({container})", got, want))
     return bad
 
 
@@ -93,10 +130,15 @@ def w_sw_small(task):
     out = _new_out()
     cov = out["cov"]
     cov["sw_evaluations"] = cov["sw_parameter_sets"] = cov["sw_residue_evaluations"] = 0
-    cov["sw_nontrivial"] = 0
+    cov["sw_nontrivial"] = cov["sw_bytes_refin_non_octet_evaluations"] = 0
     n = 1 << width
     for dw, alpha, maxlen in spec:
         seqs = sequences(alpha, maxlen)
+        containers = [seq_containers(seq) for seq, _ in seqs]
+        n_evals = sum(len(c) for c in containers)
+        n_bytes = sum(1 for c in containers for k, _o in c if k in ("bytes", "bytearray"))
+        for kind in CONTAINER_KINDS:
+            cov["sw_sequences_as_" + kind] = cov.get("sw_sequences_as_" + kind, 0) + sum(1 for c in containers for k, _o in c if k == kind)
         for poly in polys:
             for refin in (False, True):
                 for init in (inits if inits is not None else range(n)):
@@ -109,15 +151,24 @@ def w_sw_small(task):
                             p = (width, poly, init, refin, refout, xorout)
                             params = _algo(p)(dw)
                             cov["sw_parameter_sets"] += 1
-                            for (seq, _parent), reg in zip(seqs, regs):
+                            compute = params.compute
+                            for (seq, _parent), reg, conts in zip(seqs, regs, containers):
                                 want = R.output(reg, width, refout, xorout)
-                                got = _call(params.compute, seq)
-                                cov["sw_evaluations"] += 1
-                                if got != want:
-                                    _viol(out, f"sw:{_ptag(p)}/dw{dw}:compute{list(seq)}",
-                                          f"Parameters({_ptag(p)}, data_width={dw}).compute({list(seq)}) = {got}, "
-                                          f"bit-serial Williams model gives {want}",
-                                          {"kind": "sw", "p": list(p), "dw": dw, "seq": list(seq)})
+                                for kind, obj in conts:
+                                    if obj is None:
+                                        obj = iter(seq) if kind == "iter" else (x for x in seq)
+                                    try:
+                                        got = compute(obj)
+                                    except Exception as e:
+                                        got = ("exc", type(e).__name__)
+                                    if got != want:
+                                        _viol(out, f"sw:{_ptag(p)}/dw{dw}:{_csig(kind, seq)}",
+                                              f"Parameters({_ptag(p)}, data_width={dw}).compute({kind} of {list(seq)}) = {got}, "
+                                              f"bit-serial Williams model gives {want}",
+                                              {"kind": "sw", "p": list(p), "dw": dw, "seq": list(seq), "container": kind})
+                            cov["sw_evaluations"] += n_evals
+                            if refin and dw != 8:
+                                cov["sw_bytes_refin_non_octet_evaluations"] += n_bytes
                             # residue(): the register left after message + own CRC (reflected when refout)
                             res = {R.residue_after(width, poly, init, refin, refout, xorout, dw, s) for s in (seqs[0][0], seqs[1][0], seqs[-1][0])}
                             if len(res) != 1:
@@ -155,6 +206,12 @@ def cat_case(name, dw, kind, seq=None):
     bad = []
     if kind == "check":
         words = R.check_words(dw, refin)
+        for ck in CONTAINER_KINDS[1:]:
+            obj = as_container(ck, words)
+            if obj is not None:
+                got = _call(algo(dw).compute, obj)
+                if pub is not None and got != pub[0]:
+                    bad.append((f"compute({ck} of the check string as {dw}-bit words)", got, f"published check {pub[0]:#x}"))
         got = _call(algo(dw).compute, words)
         if pub is not None and got != pub[0]:
             bad.append((f"compute(check string as {dw}-bit words)", got, f"published check {pub[0]:#x}"))
@@ -173,10 +230,26 @@ def cat_case(name, dw, kind, seq=None):
         if got != want:
             bad.append(("residue()", got, f"bit-serial model {want:#x}"))
     elif kind == "seq":
-        got = _call(algo(dw).compute, list(seq))
         want = R.crc(w, poly, init, refin, refout, xorout, dw, seq)
-        if got != want:
-            bad.append((f"compute({list(seq)})", got, f"bit-serial model {want:#x}"))
+        for ck in CONTAINER_KINDS:
+            obj = as_container(ck, seq)
+            if obj is None:
+                continue
+            got = _call(algo(dw).compute, obj)
+            if got != want:
+                bad.append((f"compute({ck} of {list(seq)})", got, f"bit-serial model {want:#x}"))
+    elif kind == "octets":
+        # the check string handed over as octets to a data_width-bit CRC: nine data_width-bit words with the octet values
+        if dw < 8:
+            return bad
+        seq = tuple(R.CHECK_MESSAGE)
+        want = R.crc(w, poly, init, refin, refout, xorout, dw, seq)
+        if dw == 8 and pub is not None and want != pub[0]:
+            bad.append(("catalogue parameters in the bit-serial model", want, f"published check {pub[0]:#x}"))
+        for ck in CONTAINER_KINDS:
+            got = _call(algo(dw).compute, as_container(ck, seq))
+            if got != want:
+                bad.append((f"compute({ck} of b'123456789')", got, f"bit-serial model {want:#x}"))
     return bad
 
 
@@ -185,7 +258,7 @@ def w_sw_catalog(task):
     out = _new_out()
     cov = out["cov"]
     cov["catalogue_check_evaluations"] = cov["catalogue_residue_evaluations"] = cov["catalogue_sequence_evaluations"] = 0
-    cov["catalogue_entries"] = cov["catalogue_entries_without_published_value"] = 0
+    cov["catalogue_entries"] = cov["catalogue_entries_without_published_value"] = cov["catalogue_octet_string_evaluations"] = 0
     pub = R.published()
     for name in names:
         cov["catalogue_entries"] += 1
@@ -197,6 +270,12 @@ def w_sw_catalog(task):
                 gs = hex(got) if isinstance(got, int) else got
                 _viol(out, f"catalog:{name}/dw{dw}:check", f"catalog.{name}({dw}).{what} = {gs}, want {want}",
                       {"kind": "cat", "name": name, "dw": dw, "what": "check"})
+        for dw in (8, 9, 12, 16, 24, 32, 64):
+            cov["catalogue_octet_string_evaluations"] += 1
+            for what, got, want in cat_case(name, dw, "octets"):
+                gs = hex(got) if isinstance(got, int) else got
+                _viol(out, f"catalog:{name}/dw{dw}:octets", f"catalog.{name}({dw}).{what} = {gs}, want {want}",
+                      {"kind": "cat", "name": name, "dw": dw, "what": "octets"})
         for dw in (1, 8, 13):
             cov["catalogue_residue_evaluations"] += 1
             for what, got, want in cat_case(name, dw, "residue"):
@@ -554,7 +633,7 @@ def run(rep):
                            for w, s in plan.items()})
     # ---- software, catalogue
     names = catalogue_names()
-    seq_dws = rep.pick((1, 3, 8, 16, 32), (1, 2, 3, 5, 8, 16, 24, 32, 64))
+    seq_dws = rep.pick((1, 3, 8, 12, 16, 24, 32), (1, 2, 3, 5, 8, 12, 16, 24, 32, 64))
     for ch in chunks(names, 8):
         tasks.append(("sw_cat", (ch, seq_dws, 2)))
     # ---- hardware, small parameters
@@ -609,6 +688,11 @@ def run(rep):
     for f in need:
         rep.require(f in flags, f"flag {f} never observed")
     rep.require(rep.cov.get("sw_evaluations", 0) > 0 and rep.cov.get("sw_nontrivial", 0) >= 2, "software enumeration ran")
+    for kind in CONTAINER_KINDS:
+        rep.require(rep.cov.get("sw_sequences_as_" + kind, 0) > 0, f"word sequences handed to compute() as {kind}")
+    rep.require(rep.cov.get("sw_bytes_refin_non_octet_evaluations", 0) > 0, "bytes/bytearray input with reflect_input and data_width != 8")
+    rep.setcov("container_kinds", "every word sequence is handed to compute() as " + ", ".join(CONTAINER_KINDS) +
+               " (bytes/bytearray when all words fit in an octet); compute() documents `iterable of int`")
     rep.require(rep.cov.get("catalogue_entries", 0) >= 100, "catalogue has 100+ entries")
     rep.require(rep.cov.get("catalogue_entries_without_published_value", 0) < rep.cov.get("catalogue_entries", 0),
                 "published check values available")
@@ -619,7 +703,8 @@ def run(rep):
 def replay(payload):
     kind = payload["kind"]
     if kind == "sw":
-        return [f"{k}: got {g}, want {w}" for k, g, w in sw_case(tuple(payload["p"]), payload["dw"], tuple(payload["seq"]))]
+        return [f"{k}: got {g}, want {w}" for k, g, w in sw_case(tuple(payload["p"]), payload["dw"], tuple(payload["seq"]),
+                                                                       payload.get("container", "list"))]
     if kind == "sw_residue":
         return [f"{k}: got {g}, want {w}" for k, g, w in sw_residue_case(tuple(payload["p"]), payload["dw"], tuple(payload["seq"]))]
     if kind == "cat":
